@@ -48,6 +48,11 @@ fn main() {
                                                        arg_value(&args, "--per").map(|s| s.parse().unwrap()).unwrap_or(0), &out),
         ("treap", "record-race") => treap::record_race(seed, arg_value(&args, "--threads").unwrap().parse().unwrap(),
                                                        arg_value(&args, "--draws").unwrap().parse().unwrap(), &out),
+        ("treap", "record-starts") => treap::record_starts(arg_value(&args, "--rounds").unwrap().parse().unwrap(),
+                                                           arg_value(&args, "--threads").unwrap().parse().unwrap(),
+                                                           arg_value(&args, "--per").unwrap().parse().unwrap(), &out),
+        ("treap", "record-solo-streams") => treap::record_solo_streams(arg_value(&args, "--streams").unwrap().parse().unwrap(),
+                                                                       arg_value(&args, "--per").unwrap().parse().unwrap(), &out),
         ("treap", "probe") => treap::probe(args[3].parse().unwrap(), args[4].parse().unwrap()),
         ("treap", "record-shape") => treap::record_shape(seed, &tier, &out),
         ("bitset", "replay") => bitset::replay(&args[3], &out),
